@@ -2,14 +2,14 @@ from props import Prop, Stream, reg
 
 reg(Prop('C04', [
     # spec-kind streams first: a difference there is a concrete failing input (reported before model-only diffs)
-    Stream('c04.prog', 10000, 250000, 'spec'),
-    Stream('c04.hdrspec', 4000, 100000, 'spec'),
-    Stream('c04.hdr', 6000, 150000, 'model'),
-    Stream('c04.insn', 6000, 150000, 'model'),
-    Stream('c04.op1', 24, 600, 'model', exhaustive='per sampled header (24 quick / 600 thorough, full parameter grid): all 256 opcode bytes x 3 operand tails as one-instruction programs'),
-    Stream('c04.any', 12000, 400000, 'model'),
-    Stream('c04.cont', 4000, 100000, 'model'),
-    Stream('c04.seq', 6000, 150000, 'model'),
+    Stream('c04.prog', 8000, 150000, 'spec'),
+    Stream('c04.hdrspec', 3000, 50000, 'spec'),
+    Stream('c04.hdr', 4000, 80000, 'model'),
+    Stream('c04.insn', 4000, 80000, 'model'),
+    Stream('c04.op1', 16, 300, 'model', exhaustive='per sampled header (16 quick / 300 thorough, full parameter grid): all 256 opcode bytes x 3 operand tails as one-instruction programs'),
+    Stream('c04.any', 10000, 200000, 'model'),
+    Stream('c04.cont', 3000, 50000, 'model'),
+    Stream('c04.seq', 4000, 80000, 'model'),
 ], level='proof',
     clauses=[
         'monotone_any_input (+ monotone_between_end_sequences, monotone_any_unit): for ALL program bytes and all decoded headers, both build modes, returned row addresses never decrease inside a sequence and never exceed the address size - outside the known class swallowed_end; monotone_any_input_refuted gives the witness of the known finding',
@@ -32,7 +32,7 @@ reg(Prop('C04', [
                 'machine-checked refutation + known finding with a proposed fix); instruction and v2-4 header codecs round-trip; for '
                 'every well-formed program the rows are exactly those of the DWARF state machine written over unbounded integers '
                 '(special opcodes, VLIW op_index, unknown opcodes, non-standard opcode_base); sequences()+resume_from() = rows() with '
-                'exact bounds. The model is tied to gimli by ~66k cases per quick run in debug and release (every opcode byte per '
+                'exact bounds. The model is tied to gimli by ~48k cases per quick run in debug and release (every opcode byte per '
                 'sampled header, boundary operands, arbitrary bytes) with impl-side oracles for monotonicity, bounds and resume.'),
     level_note=('Trusted: Coq kernel, the hand-written model (tied by differential execution only), Spec/LineSpec.v as the meaning of '
                 'DWARF 5 6.2, OCaml/Rust/Python glue. usize = u64.'),
